@@ -191,6 +191,8 @@ class C03(Prop):
       elem = g.spec(0)
       if rng.chance(0.12):
         elem = {'k': 'obj', 'cls': 4, 'n': 0}       # elements are symbolic objects with nested children
+      elif rng.chance(0.08):
+        elem = self.conv_union(rng, g)
       elif elem['k'] not in ATOM_KINDS:
         continue
       elif rng.chance(0.1):
@@ -265,6 +267,19 @@ class C03(Prop):
       else:
         ops.append([k])
     return {'kind': 'list', 'spec': spec, 'items': items, 'ops': ops}
+
+  def conv_union(self, rng, g):
+    """Union[Float(range), ..., Callable()]: the candidate without value type switches the Union's own type
+    check off, so an int reaches the Float candidate only through the converter fallback of
+    `Union._apply` (which must still run that candidate's range check)."""
+    lo, hi = g.bounds(-2, 6)
+    if lo is None and hi is None:
+      hi = rng.randint(0, 3)
+    fc = {'k': 'float', 'lo': None if lo is None else tv.fl(lo, 0)[1:], 'hi': None if hi is None else tv.fl(hi, 0)[1:], 'n': 0}
+    cands = [fc, {'k': 'callable', 'n': 0}]
+    if rng.chance(0.5):
+      cands.insert(rng.below(3), {'k': 'str', 'rx': None, 'n': 0})
+    return {'k': 'union', 'cands': cands, 'n': 0}
 
   def freeze_optional(self, g, fd):
     """Makes an atom field both noneable and frozen at a non-None value (`Str().noneable().freeze('a')`)."""
@@ -421,8 +436,11 @@ class C03(Prop):
       for nm in names:
         # field kinds: atoms (some frozen + optional), Object-typed, and a guaranteed share of
         # container-typed fields (list / dict with schema / Union[container, Str])
-        shape = rng.weighted([(30, 'any'), (8, 'frozen-optional'), (14, 'object'), (16, 'list'), (16, 'dict'), (16, 'union')])
+        shape = rng.weighted([(30, 'any'), (8, 'frozen-optional'), (14, 'object'), (16, 'list'), (16, 'dict'), (16, 'union'),
+                              (8, 'conv-union')])
         fd = g.spec(rng.weighted([(3, 0), (3, 1)]))
+        if shape == 'conv-union':
+          fd = self.conv_union(rng, g)
         if shape in ('list', 'dict', 'union'):
           inner = None
           for _try in range(20):
